@@ -410,6 +410,14 @@ class Parser:
         m = re.match(r'(.*)::promoted\[(\d+)\]$', s)
         if m:
             return ('promoted', m.group(1), int(m.group(2))), None
+        m = re.fullmatch(r'(?:core::num::<impl |std::)?(i8|i16|i32|i64|i128|isize|u8|u16|u32|u64|u128|usize)>?::(MIN|MAX|BITS)', s)
+        if m:
+            w, signed = INT_TYPES[m.group(1)]
+            if m.group(2) == 'BITS':
+                return w, 'u32'
+            if m.group(2) == 'MIN':
+                return (-(1 << (w - 1)) if signed else 0), m.group(1)
+            return ((1 << (w - 1)) - 1 if signed else (1 << w) - 1), m.group(1)
         if s == '()' or s == '(): ()':
             return ('unit',), '()'
         m = re.match(r'(.*)::(None)$', s)
